@@ -342,7 +342,9 @@ func c44Containers(depth int) []builder {
 		{"SomeUFix64", func(*interpreter.Interpreter) interpreter.Value {
 			return interpreter.NewUnmeteredSomeValueNonCopying(interpreter.NewUnmeteredUFix64Value(150000000))
 		}},
-		{"Cap", func(*interpreter.Interpreter) interpreter.Value { return interpreter.NewUnmeteredCapabilityValue(5, a1, borrow) }},
+		{"Cap", func(*interpreter.Interpreter) interpreter.Value {
+			return interpreter.NewUnmeteredCapabilityValue(5, a1, borrow)
+		}},
 		{"Type", func(*interpreter.Interpreter) interpreter.Value { return interpreter.NewUnmeteredTypeValue(borrow) }},
 		{"Path", func(*interpreter.Interpreter) interpreter.Value {
 			return interpreter.NewUnmeteredPathValue(common.PathDomainStorage, "p")
@@ -932,7 +934,7 @@ func replayC44(env *mc.Env, raw json.RawMessage) (bool, string) {
 
 func init() {
 	mc.Register(&mc.Check{
-		ID: "C44",
+		ID:   "C44",
 		Rule: "every static type obtained from cdcval.Types(d) (plus deprecated primitives, legacy intersection, inaccessible authorization), every non-container storable (all number types at their bounds, strings, characters, addresses, paths, capabilities, path capabilities, published values, both controller kinds, links, a type value per static type, 1-3 nested optionals) and every container case (arrays, dictionaries, all composite kinds, nested to depth d, small and multi-slab) is encoded, decoded, compared and re-encoded with the real storage codec; every entry of the golden corpus written by the pinned tree is decoded and compared with its recorded value; non-trivial = distinct (kind, class, value)",
 		Assumptions: []string{
 			"atree's slab encoding is exercised through atree.EncodeSlab/DecodeSlab with cadence's storable and type-info decoders; atree itself is trusted",
